@@ -28,6 +28,7 @@ def main():
     hostile = getattr(mod, "HOSTILE", ())
     gen.HOSTILE_SCALE = "scale" in hostile
     gen.HOSTILE_MEAN = "mean" in hostile
+    gen.HOSTILE_SPECIAL = "special" in hostile
     rec = core.Rec(a.prop)
     rec.classifier = getattr(mod, "classify", None)
     hooks.install(monitors=getattr(mod, "MONITORS", ("WF",)), rec=rec)
